@@ -1,6 +1,7 @@
 import CogentModel.Model.IndelMap
 import CogentModel.Spec.Gapped
 import CogentModel.Proofs.IndelMapInv
+import CogentModel.Proofs.AlnInv
 /-! # C08 — property theorems (gapped-coordinate maps agree with the gapped string)
 
 `abs m : List (Option Nat)` is the gapped string (column ↦ sequence index or gap) a map stands
@@ -31,5 +32,36 @@ theorem fromGapped_len (s : List Bool) : len (fromGapped s) = s.length := by
   rw [← len_eq _ (fromGapped_wf s), abs_fromGapped, ofPattern, ofPatternFrom_length]
 
 example : len (fromGapped [true, false, true]) = 3 := by decide
+
+/-- What a sequence displays through a well-formed map (`gapped_by_map`: the expansion of the
+`spans` property, with its special cases for a leading gap, the first span and the tail) is the
+gapped string `abs m`. -/
+theorem spans_expand_eq_abs (m : IMap) (h : WF m) : absSpans m = abs m := absSpans_eq_abs m h
+
+example : absSpans ⟨[0, 2], [1, 4], 3⟩ = [none, some 0, some 1, none, none, none, some 2] := by decide
+
+/-- Consequently the spans of the map of a string rebuild that string, for every layout. -/
+theorem spans_of_fromGapped (s : List Bool) : absSpans (fromGapped s) = ofPattern s := by
+  rw [absSpans_eq_abs _ (fromGapped_wf s), abs_fromGapped]
+
+example : absSpans (fromGapped [true, true, false]) = [none, none, some 0] := by decide
+
+/-- The model exhibits the slicing defect: the map of `G--` sliced by `[0:4]` claims 2 residues and
+4 columns, while the string slice `G--` has 1 residue and 3 columns (stop is not clamped to `len`). -/
+theorem getitem_stop_beyond_len_counter :
+    (getitem (fromGapped [false, true, true]) (some 0) (some 4) none).toOption = some ⟨[1], [2], 2⟩ ∧
+    Gapped.slice (ofPattern [false, true, true]) (some 0) (some 4) = [some 0, none, none] := by decide
+
+/- FULL STATEMENT (not proved): `getitem_spec` —
+   `∀ m a b, WF m → getitem m a b none = .ok r → WF r ∧ abs r = Gapped.slice (abs m) a b`
+   (all start-case x stop-case x layout combinations of `IndelMap.__getitem__`), and the analogous
+   `seq_index_spec` / `align_index_spec` (`getSeqIndex m i = Gapped.seqIndex (abs m) i`),
+   `add_spec`, `reversed_spec`, `merge_spec`, `joined_spec`, `minus_spec`.
+   Why not: (1) it is false as stated for the mirrored model — `getitem_stop_beyond_len_counter`
+   above is the witness (stop > len is not clamped), and `add` of a trailing gap to a leading gap
+   yields duplicate positions; (2) the restricted `getitem_spec_partial` (0 ≤ a ≤ b ≤ len) needs the
+   searchsorted-index ↔ recursive-scan bridge lemmas, which were not completed in the time available.
+   These clauses are covered by the exhaustive correspondence (model = code on every layout of
+   length ≤ 8 x every interval) plus the exhaustive spec-level differential (code = string). -/
 
 end CogentModel.C08
